@@ -88,17 +88,13 @@ def runList (env : Env) : TList → List ListOp → List J
       :: runList env l' ops
 
 /-- An operation of a dict / object history: a `DictOp`, or a rebind with (nested) key paths. -/
-inductive AnyOp where
-  | plain (op : DictOp)
-  | paths (ws : List (String × List PKey × Bool × Val))
+abbrev AnyOp := TOp
 
 def runDict (env : Env) (p0 : Bool) : TDict → List (AnyOp × Option Bool) → List J
   | _, [] => []
   | d, (op, scope) :: ops =>
     let p := scope.getD p0
-    let (d', e) := match op with
-      | .plain o => dictStep env p hasMissing d o
-      | .paths ws => pathBatch env hasMissing d ws
+    let (d', e) := tStep env p hasMissing d op
     .obj [("err", errJ e), ("items", kvsToJ d'.kvs), ("conforms", .bool (conformsDB env true d')),
           ("complete", .bool (conformsDB env false d'))] :: runDict env p0 d' ops
 
